@@ -61,6 +61,12 @@ class FsRun:
         kind = self.w.get("root_kind", "str")
         if sp == "rel":
             p = "root"
+        elif sp == "reldot":
+            p = "./root"
+        elif sp == "dot":
+            p = self.top + "/./root"
+        elif sp == "dslash":
+            p = self.top + "//root"
         elif sp == "slash":
             p = self.top + "/root/"
         else:
@@ -118,7 +124,7 @@ class FsRun:
         p.set(M["ib"].InotifyBuffer, "delay", self.case.get("delay", 0.5))
         os.makedirs(self.top + "/root")
         os.makedirs(self.top + "/out")
-        if self.w.get("spelling") == "rel":
+        if self.w.get("spelling") in ("rel", "reldot"):
             self.cwd0 = os.getcwd()
             os.chdir(self.top)
 
@@ -215,8 +221,12 @@ class FsRun:
         b = os.fsencode(path)
         if b.startswith(self.topb + b"/"):
             return os.fsdecode(b[len(self.topb) + 1:]).rstrip("/")
-        if self.w.get("spelling") == "rel" and not b.startswith(b"/"):
-            return os.fsdecode(b).rstrip("/")
+        for odd in (b"/./", b"//"):
+            if b.startswith(self.topb + odd):
+                return os.fsdecode(b[len(self.topb) + len(odd):]).rstrip("/")
+        if self.w.get("spelling") in ("rel", "reldot") and not b.startswith(b"/"):
+            r = os.fsdecode(b).rstrip("/")
+            return r[2:] if r.startswith("./") else r
         return None
 
     # ------------------------------------------------------------------ real tree
